@@ -15,9 +15,9 @@ import (
 
 func init() {
 	ev.Register(&ev.Check{
-		ID:    "C04",
-		Level: "exploration",
-		Rule: "slots = annotated values with a rule set, an example obeying it and, per rule, single-rule corruptions of the example (bound -/+ one step, length +-1, non-matching string, non-member, malformed format, one item too few/many, wrong declared kind, value outside every or-alternative / referenced type). (=>) ALL shapes <= 3 (thorough 4) nodes with every scalar leaf replaced by every slot (good example) plus every slot in 12 nesting contexts (root, property, array element first/later, nested twice, inside an added user type): whenever Check succeeds Validate(example text) must succeed. (<=) every slot x every context x every corruption: Check must fail and report the byte offset of the corrupted value (renderer's offset map). Non-trivial = distinct rendered schema.",
+		ID:             "C04",
+		Level:          "exploration",
+		Rule:           "slots = annotated values with a rule set, an example obeying it and, per rule, single-rule corruptions of the example (bound -/+ one step, length +-1, non-matching string, non-member, malformed format, one item too few/many, wrong declared kind, value outside every or-alternative / referenced type). (=>) ALL shapes <= 3 (thorough 4) nodes with every scalar leaf replaced by every slot (good example) plus every slot in 12 nesting contexts (root, property, array element first/later, nested twice, inside an added user type): whenever Check succeeds Validate(example text) must succeed. (<=) every slot x every context x every corruption: Check must fail and report the byte offset of the corrupted value (renderer's offset map). Non-trivial = distinct rendered schema.",
 		Run:            run,
 		Replay:         replay,
 		QuickBudget:    80 * time.Second,
